@@ -113,6 +113,22 @@ def pow2_instances(exprs, down=2, up=1, max_terms=60):
     return facts
 
 
+def _strlits(exprs):
+    out, seen, stack = {}, set(), list(exprs)
+    while stack:
+        t = stack.pop()
+        if t.get_id() in seen:
+            continue
+        seen.add(t.get_id())
+        if z3.is_quantifier(t):
+            stack.append(t.body())
+        elif z3.is_app(t):
+            if t.num_args() == 0 and t.decl().name().startswith("strlit!"):
+                out[t.decl().name()] = t
+            stack.extend(t.children())
+    return list(out.values())
+
+
 def _term_facts(t):
     from .ops import pow2, ilog2
     f = [z3.Implies(t >= 0, pow2(t) >= 1),
@@ -179,6 +195,9 @@ def to_smt2(hyps, goal, want_axioms=None, extra=(), use_theories=True):
     for h in extra:
         s.add(h)
     s.add(z3.Not(goal))
+    lits = _strlits(exprs)
+    if len(lits) > 1:
+        s.add(z3.Distinct(*lits))
     txt = s.to_smt2()
     if use_theories:
         from .theories import axioms_for
